@@ -14,6 +14,9 @@ package main
 //   send-close-server  Send / SendRaw from 4 goroutines while the server connection is closed    (finding 11)
 //   close-flood-server Close of a server connection whose peer streams requests                  (finding 12)
 //   close-flood-client Close of a client connection whose peer streams events and responses      (finding 12, 5)
+//   deliver-close      final responses for 1..3 managed requests delivered on one goroutine while the handler is closed
+//                      (as a connection does it: cancel the context, then close) on another; afterwards EVERY request
+//                      must be complete: channel closed and (frame received or Err() != nil)     (repair e396228)
 // Every Send must return a value or an error; every Close must return; the process must survive.
 // The families are probabilistic: the iteration counts of the quick tier are chosen so that the pre-fix code fails
 // within the time box with high probability (measured rates: notes/inflight.md).
@@ -48,9 +51,12 @@ type raceReport struct {
 	Panics     []string `json:"panics,omitempty"` // recovered in the caller's goroutine: value + stack
 	Hang       string   `json:"hang,omitempty"`
 	Other      []string `json:"other,omitempty"`
+	Stuck      []string `json:"stuck,omitempty"` // requests that were neither answered nor failed (family deliver-close)
+	// the same when the handler's context had been cancelled before close() (what CqlClientConnection.Close does)
+	StuckAfterCancel []string `json:"stuck_after_cancel,omitempty"`
 }
 
-var raceFamilies = []string{"timeout-delivery", "send-close-client", "send-close-server", "close-flood-server", "close-flood-client"}
+var raceFamilies = []string{"timeout-delivery", "send-close-client", "send-close-server", "close-flood-server", "close-flood-client", "deliver-close"}
 
 // ---------------------------------------------------------------------------------------------- parent
 
@@ -68,7 +74,7 @@ func raceBox(tier, family string) time.Duration {
 }
 
 // two families run at a time (each keeps four to six cores busy); the two long ones are not paired with each other
-var raceOrder = [][]string{{"close-flood-server", "timeout-delivery"}, {"close-flood-client", "send-close-client"}, {"send-close-server"}}
+var raceOrder = [][]string{{"close-flood-server", "timeout-delivery"}, {"close-flood-client", "send-close-client"}, {"send-close-server", "deliver-close"}}
 
 func runRaces(tier string) {
 	type outcome struct {
@@ -129,6 +135,12 @@ func runRaces(tier string) {
 		}
 		if o.rep.Hang != "" {
 			rec.Failures = append(rec.Failures, sockFailure{Kind: "close-hangs", What: fmt.Sprintf("%s: no progress for 6s after %d iterations; %.3000s", fam, o.rep.Iterations, o.rep.Hang), Case: caseOf})
+		}
+		for _, p := range o.rep.Stuck {
+			rec.Failures = append(rec.Failures, sockFailure{Kind: "request-stuck", Cls: "close", What: fam + ": " + p, Case: caseOf})
+		}
+		for _, p := range o.rep.StuckAfterCancel {
+			rec.Failures = append(rec.Failures, sockFailure{Kind: "request-stuck", Cls: "context-cancelled", What: fam + ": " + p, Case: caseOf})
 		}
 		for _, p := range o.rep.Other {
 			rec.Failures = append(rec.Failures, sockFailure{Kind: "state-wrong", What: fam + ": " + p, Case: caseOf})
@@ -245,6 +257,8 @@ func raceChild(family string, millis int64) {
 				raceServer(st, rng, false)
 			case "close-flood-client":
 				raceCloseFloodClient(st, rng, w)
+			case "deliver-close":
+				raceDeliverClose(st, rng, w)
 			default:
 				st.other("unknown family %q", family)
 			}
@@ -584,5 +598,91 @@ func raceCloseFloodClient(st *raceState, rng *rand.Rand, w int) {
 			_ = cc.Close()
 		}()
 		atomic.AddInt64(&st.iters, 1)
+	}
+}
+
+// ---- repair e396228: a final response delivered while the handler is closed. onIncomingFrameReceived removes the
+// request from the table first; whatever happens after that, nobody but this delivery can complete the request.
+// mode 0: close() alone; mode 1: the context is cancelled first, as CqlClientConnection.Close does.
+func raceDeliverClose(st *raceState, rng *rand.Rand, w int) {
+	for it := 0; st.running(); it++ {
+		n := 1 + it%3
+		mode := 0 // close() alone
+		if w%4 == 3 {
+			mode = 1 // the context is cancelled first
+		}
+		h := client.VerifNewHandler(n, 1, time.Hour)
+		reqs := make([]client.InFlightRequest, 0, n)
+		frames := make([]*frame.Frame, 0, n)
+		for i := 0; i < n; i++ {
+			r, err := h.Enqueue(requestFrame(0))
+			if err != nil {
+				st.other("enqueue %d of %d on a fresh handler: %v", i+1, n, err)
+				return
+			}
+			reqs = append(reqs, r)
+			frames = append(frames, responseFrame(int(r.StreamId()), true, int64(i)))
+		}
+		start := make(chan struct{})
+		delivered := make(chan struct{})
+		results := make([]string, n)
+		go func() {
+			defer close(delivered)
+			<-start
+			for i, f := range frames {
+				results[i] = client.VerifErrClass(h.Deliver(f))
+			}
+		}()
+		dc, dd := rng.Intn(40), rng.Intn(40)
+		_ = dd
+		close(start)
+		spin(dc)
+		if mode == 1 {
+			h.CancelContext()
+		}
+		h.Close()
+		<-delivered
+		if mode == 0 {
+			h.CancelContext()
+		}
+		// both have returned: every request is complete, one way or the other
+		stuckHere := false
+		for i, r := range reqs {
+			state := client.VerifStateOf(r)
+			got, chClosed := 0, false
+		drain:
+			for {
+				select {
+				case _, ok := <-r.Incoming():
+					if !ok {
+						chClosed = true
+						break drain
+					}
+					got++
+				default:
+					break drain
+				}
+			}
+			if !state.Done || !chClosed || (got == 0 && state.ErrClass == "") {
+				st.mu.Lock()
+				list := &st.rep.Stuck
+				if mode == 1 {
+					list = &st.rep.StuckAfterCancel
+				}
+				if len(*list) < 3 {
+					*list = append(*list, fmt.Sprintf("iteration %d of this worker (%d in all): request %d of %d (stream id %d) after the delivery of its final frame (result %q) and %s both returned: IsDone()=%v, channel closed=%v, frames received=%d, Err()=%q - it is no longer registered, so nothing will ever complete it",
+						it, atomic.LoadInt64(&st.iters), i+1, n, r.StreamId(), results[i], map[int]string{0: "close()", 1: "cancel()+close()"}[mode], state.Done, chClosed, got, state.ErrClass))
+				}
+				st.mu.Unlock()
+				if mode == 0 {
+					atomic.StoreInt32(&st.stop, 1)
+				}
+				stuckHere = true
+			}
+		}
+		atomic.AddInt64(&st.iters, 1)
+		if stuckHere {
+			return // this worker has its finding; the workers of the other mode go on
+		}
 	}
 }
